@@ -49,8 +49,8 @@ func TestCheck(t *testing.T) {
 	for _, hz := range []string{hzDupKey, hzAnyFanIn, hzMissingInKey, hzMissingMapK} {
 		rep.Require("typed_ref_undefined_"+hz, 3)
 	}
-	n := int64(cfg.Pick(300, 400))
-	nTyped := int64(cfg.Pick(500, 2000))
+	n := int64(cfg.Pick(300, 1200))
+	nTyped := int64(cfg.Pick(500, 6000))
 	nNil := int64(cfg.Pick(200, 10000))
 	rep.Require("nilchunk_cases", 50)
 	rep.Require("nilchunk_kind_nil-next-to-real-chunks", 20)
